@@ -68,6 +68,7 @@ package recovery
 //@   ensures [torn-content-reports-error] result == nil && !preview && hdr.Typeflag != 53 && fiMode(hdrInfoOf(hdr)) & 2401763328 == 0 ==> copied[dstFile] == verifier
 //@   property C08
 //@   at call Copy#1 assert [raw-copy-only-for-non-regular] fiMode(hdrInfoOf(hdr)) & 2401763328 != 0
+//@   ensures [content-accepted-only-after-its-signature-was-checked] result == nil && !preview && hdr.Typeflag != 53 && fiMode(hdrInfoOf(hdr)) & 2401763328 == 0 && pipes.Signature != "" ==> contentChecked
 //@   at call getDst assert [accept-site] hdrVerified[hdr]
 //@   at call mkdirAll assert [accept-site-dir] hdrVerified[hdr]
 
@@ -89,6 +90,9 @@ package recovery
 //@   property C17
 //@   at call UpsertHeader#1 assert [foreign-record-is-create] !old(has(hdr.PAXRecords, "STFS.Action")) || old(hdr.PAXRecords["STFS.Action"]) == "CREATE"
 //@   at call UpsertHeader#1 assert [foreign-record-version] !old(has(hdr.PAXRecords, "STFS.Version")) || old(hdr.PAXRecords["STFS.Version"]) == "1"
+//@   property C03
+//@   property C12
+//@   at call RemoveSuffix#1 assert [moves-and-deletions-address-the-stored-name] old(has(hdr.PAXRecords, "STFS.UncompressedSize")) && !old(has(hdr.PAXRecords, "STFS.ReplacesName")) && old(hdr.PAXRecords["STFS.ReplacesContent"]) != "false" && old(hdr.PAXRecords["STFS.Action"]) != "DELETE"
 //@   property C03
 //@   at call RemoveSuffix#1 assert [suffix-stripped-only-when-added] old(has(hdr.PAXRecords, "STFS.UncompressedSize")) && !old(has(hdr.PAXRecords, "STFS.ReplacesName")) && old(hdr.PAXRecords["STFS.ReplacesContent"]) != "false" && old(hdr.PAXRecords["STFS.Action"]) != "DELETE"
 //@   at call FileInfo#1 assert [stored-size-is-content-length] old(has(hdr.PAXRecords, "STFS.UncompressedSize")) ==> hdr.Size == atoiF(old(hdr.PAXRecords["STFS.UncompressedSize"]))
